@@ -227,6 +227,13 @@ fn tcp_part(seed: u64) -> Tally {
             send_frame(ctx, &mut s3, &gossip_handshake(kc, Some(kb.public()), &id3, genesis, false)).await.map_err(|e| anyhow::format_err!(e))?;
             let r = recv_frame(ctx, &mut s3).await;
             tally.lock().unwrap().expect("gossip_inbound_wrong_signer", r.is_ok() || admitted(kb), false, "identity B claimed, signed with C's key".into());
+            // 3b. the node's OWN identity claimed, signed by C ("we signed it ourselves" must not be assumed)
+            {
+                let (mut s3b, id3b) = adv_connect(ctx, addr, true).await.map_err(|e| anyhow::format_err!(e))?;
+                send_frame(ctx, &mut s3b, &gossip_handshake(kc, Some(n_gossip_key.public()), &id3b, genesis, false)).await.map_err(|e| anyhow::format_err!(e))?;
+                let r = recv_frame(ctx, &mut s3b).await;
+                tally.lock().unwrap().expect("gossip_inbound_own_identity_claimed", r.is_ok() || net.inbound_keys().contains(&n_gossip_key.public()), false, "the node's own identity claimed, signed with C's key".into());
+            }
             // 4. other genesis
             let (mut s4, id4) = adv_connect(ctx, addr, true).await.map_err(|e| anyhow::format_err!(e))?;
             send_frame(ctx, &mut s4, &gossip_handshake(kb, None, &id4, other_genesis, false)).await.map_err(|e| anyhow::format_err!(e))?;
@@ -387,6 +394,13 @@ fn tcp_part(seed: u64) -> Tally {
             send_frame(ctx, &mut v5, &consensus_handshake(outsider_val, Some(w.c.keys[2].public()), &vid5, genesis, false)).await.map_err(|e| anyhow::format_err!(e))?;
             let r = recv_frame(ctx, &mut v5).await;
             tally.lock().unwrap().expect("validator_inbound_wrong_signer", r.is_ok() || vadm(&w.c.keys[2]), false, "member's key claimed, signed by an outsider".into());
+            // the node's OWN validator key claimed, signed by an outsider (a loop-back connection is authenticated like any other)
+            {
+                let (mut v5b, vid5b) = adv_connect(ctx, vaddr, false).await.map_err(|e| anyhow::format_err!(e))?;
+                send_frame(ctx, &mut v5b, &consensus_handshake(outsider_val, Some(w.c.keys[0].public()), &vid5b, genesis, false)).await.map_err(|e| anyhow::format_err!(e))?;
+                let r = recv_frame(ctx, &mut v5b).await;
+                tally.lock().unwrap().expect("validator_inbound_own_identity_claimed", r.is_ok() || vadm(&w.c.keys[0]), false, "the node's own validator key claimed, signed by an outsider".into());
+            }
             // a second connection authenticated as the same member is a duplicate: refused, the live one stays
             let (mut v6, vid6) = adv_connect(ctx, vaddr, false).await.map_err(|e| anyhow::format_err!(e))?;
             send_frame(ctx, &mut v6, &consensus_handshake(member, None, &vid6, genesis, false)).await.map_err(|e| anyhow::format_err!(e))?;
